@@ -325,16 +325,16 @@ fn baseline(client_cert: bool) -> Baseline {
 struct Splits {
     client_cert: bool,
     base: Baseline,
-    mode: u8, // 0 single, 1 pairs in first flight, 2 uniform
+    mode: u8, // 0 single, 1 pairs in first flight, 2 uniform, 3 pairs over the whole stream
 }
 
 impl Splits {
     fn cuts(&self, idx: u64) -> (Vec<usize>, usize) {
         match self.mode {
             0 => (vec![idx as usize + 1], usize::MAX),
-            1 => {
-                // pairs a<b within the first flight (+ a little beyond)
-                let m = (self.base.first_flight + 8) as u64;
+            1 | 3 => {
+                // pairs a<b within the first flight (+ a little beyond), or over the whole stream
+                let m = if self.mode == 1 { (self.base.first_flight + 8) as u64 } else { (self.base.n + 4) as u64 };
                 let mut k = idx;
                 let mut a = 1u64;
                 loop {
@@ -353,13 +353,13 @@ impl Splits {
 
 impl Family for Splits {
     fn name(&self) -> String {
-        format!("{}-{}", ["single-splits", "split-pairs-first-flight", "uniform-chunks"][self.mode as usize], if self.client_cert { "client-cert" } else { "no-client-cert" })
+        format!("{}-{}", ["single-splits", "split-pairs-first-flight", "uniform-chunks", "split-pairs-whole-stream"][self.mode as usize], if self.client_cert { "client-cert" } else { "no-client-cert" })
     }
     fn len(&self) -> u64 {
         match self.mode {
             0 => (self.base.n + 6) as u64,
-            1 => {
-                let m = (self.base.first_flight + 8) as u64;
+            1 | 3 => {
+                let m = if self.mode == 1 { (self.base.first_flight + 8) as u64 } else { (self.base.n + 4) as u64 };
                 m * (m - 1) / 2
             }
             _ => 64,
@@ -420,18 +420,21 @@ impl Family for NoConfig {
     }
 }
 
-pub fn build(_quick: bool) -> Check {
+pub fn build(quick: bool) -> Check {
     let mut families: Vec<Box<dyn Family>> = Vec::new();
     for cc in [false, true] {
         families.push(Box::new(Splits { client_cert: cc, base: baseline(cc), mode: 0 }));
         families.push(Box::new(Splits { client_cert: cc, base: baseline(cc), mode: 2 }));
         families.push(Box::new(Splits { client_cert: cc, base: baseline(cc), mode: 1 }));
+        if !quick {
+            families.push(Box::new(Splits { client_cert: cc, base: baseline(cc), mode: 3 }));
+        }
     }
     families.push(Box::new(NoConfig { base: baseline(false) }));
     Check {
         id: "C18",
         level: "model_checking",
-        rule: "a live rustls client inside the transport: SSLRequest (plaintext) immediately followed by the ClientHello, then, once the server's flight arrived, Finished (+ client certificate) coalesced with the encrypted HandshakeResponse41 and five pipelined commands. Schedules: every single cut position of the whole client->server stream, every pair of cut positions within SSLRequest+ClientHello, uniform read sizes 1..64; with and without a client certificate; plus a TLS-requesting client against a shim without TLS configuration under every cut of its first flight. Oracle: user name and certificate chain at after_authentication, callback log = script, every server byte after the greeting lies in a well-formed TLS record the client accepts, decrypted replies decode strictly with the right sequence ids, run_on returns Ok; no-config case: Err and no callback.".into(),
+        rule: "a live rustls client inside the transport: SSLRequest (plaintext) immediately followed by the ClientHello, then, once the server's flight arrived, Finished (+ client certificate) coalesced with the encrypted HandshakeResponse41 and five pipelined commands. Schedules: every single cut position of the whole client->server stream, every pair of cut positions within SSLRequest+ClientHello (thorough: every pair over the whole stream), uniform read sizes 1..64; with and without a client certificate; plus a TLS-requesting client against a shim without TLS configuration under every cut of its first flight. Oracle: user name and certificate chain at after_authentication, callback log = script, every server byte after the greeting lies in a well-formed TLS record the client accepts, decrypted replies decode strictly with the right sequence ids, run_on returns Ok; no-config case: Err and no callback.".into(),
         assumptions: vec![
             "ring's randomness is not owned: handshake bytes differ between runs and with a client certificate the stream length varies by a byte or two; cut positions are taken from the stream actually produced, the verdict does not depend on the random values".into(),
             "flush behaviour is C12's subject; here written bytes are visible to the client at once".into(),
